@@ -8,9 +8,11 @@ accepts), `part_dimension` (`[n,m,…]`), `part_equal`, `part_value` (the unquot
 `part_units` (`\s+[^\s#=]+`, not starting with `/ * + -`), then `cast_value`: a scalar token by kind, an array
 token as JSON nested lists (`json.loads`) whose shape must be the declared one.
 
-Only the numeric and boolean kinds: values of string nodes are quoted (`"…"` with `\\"`, `\\'`; arrays as JSON in
-`'…'` with `\\uXXXX` escapes) and are read by a lazy regular expression with a look-ahead — not modelled (the
-reader answers `none` for `str`); they stay covered by the correspondence with the real parser only.
+Scalar string nodes: `"…"` up to the end of the line, where `\\"` and `\\'` stand for quote characters
+(`DIP._determine_node` replaces them by place-holders before the node parser runs and puts the quote characters back
+afterwards; every other `"` closes the value).  NOT modelled (the reader answers `none`): arrays of strings
+(`'[…]'`, JSON with `\\uXXXX` escapes) and string values whose text contains `$` (the place-holders are `$@00`,
+`$@01`, `$@02`: a value that contains such a text itself is decoded as well).
 -/
 namespace SciVerif.C19
 
@@ -59,6 +61,32 @@ def dipValue (k : Kind) (dims : Option (List Nat)) (tok : Str) : Option Val :=
     let sh ← rectShape tree
     if sh ≠ d then none else interp .backslash k (cs!"true") (cs!"false") tree
 
+/-- a quoted value after its opening quote: the value and what follows the closing quote.  The flag says that
+    the previous character was a backslash whose meaning is still open: `\\"` and `\\'` are the quote characters,
+    any other backslash is an ordinary character; the first `"` not preceded by such a backslash closes. -/
+def dipStrGo : Bool → Str → Option (Str × Str)
+  | false, [] => none
+  | false, ch :: r =>
+    if ch = '"' then some ([], r)
+    else if ch = '\\' then dipStrGo true r
+    else (dipStrGo false r).map (fun vt => (ch :: vt.1, vt.2))
+  | true, [] => none
+  | true, d :: r =>
+    if d = '"' ∨ d = '\'' then (dipStrGo false r).map (fun vt => (d :: vt.1, vt.2))
+    else if d = '\\' then (dipStrGo true r).map (fun vt => ('\\' :: vt.1, vt.2))
+    else (dipStrGo false r).map (fun vt => ('\\' :: d :: vt.1, vt.2))
+
+/-- a scalar string node: `"…"` up to the end of the line (string nodes carry no unit) -/
+def dipStrLine (name : Str) (bits : Nat) (dims : Option (List Nat)) (r : Str) : Option Param :=
+  match dims, r with
+  | none, '"' :: body =>
+    if body.all (fun c => c ≠ '$') then
+      match dipStrGo false body with
+      | some (v, []) => some ⟨name, .str, bits, .leaf (.s v), none, []⟩
+      | _ => none
+    else none
+  | _, _ => none
+
 /-- one exported line read back as a parameter: name, kind, precision, value, unit (no tags) -/
 def readDipLine (l : Str) : Option Param := do
   let (name, r) := l.span dipNameChar
@@ -66,9 +94,9 @@ def readDipLine (l : Str) : Option Param := do
   let r ← dropPrefix? [' '] r
   let (decl, r) := r.span (fun c => c ≠ '[' ∧ c ≠ ' ')
   let (k, bits) ← dipKind decl
-  if k = Kind.str then none else
   let (dims, r) ← dipDims r
   let r ← dropPrefix? (cs!" = ") r
+  if k = Kind.str then dipStrLine name bits dims r else
   let (tok, r) := r.span (fun c => c ≠ ' ' ∧ c ≠ '#')
   if tok = [] then none else
   let unit ← dipUnit r
